@@ -1,6 +1,6 @@
 import re
 
-WHITESPACE = " \n\t"
+WHITESPACE = " \n\t\r\f"
 MAX_ERRLEN = 100
 
 class GAPInputException(Exception):
@@ -61,7 +61,8 @@ def parse_contents(text):
 
 def parse_list(text):
 
-    interval = re.match(r"((-?\d+)\.\.(-?\d+)\])", text)
+    # GAP itself prints ranges with blanks: [ 1 .. 2 ]
+    interval = re.match(r"(\s*(-?\d+)\s*\.\.\s*(-?\d+)\s*\])", text)
 
     if interval and int(interval.group(2)) <= int(interval.group(3)):
         current_list = range(int(interval.group(2)),
